@@ -194,14 +194,18 @@ class Engine:
   # ================================================================================================================
   # obligations
 
-  def emit(self, st, kind, label, goal, clause=None, line=0, props=None, note=""):
+  def emit(self, st, kind, label, goal, clause=None, line=0, props=None, note="", only_hyps=None):
     if not self.emit_enabled:
       return
     if isinstance(goal, bool):
       goal = z3.BoolVal(goal)
     hyps = []
     seen_h = set()
-    for h in st.pc:
+    for h in (st.pc if only_hyps is None else only_hyps):
+      if isinstance(h, bool):
+        if h:
+          continue
+        h = z3.BoolVal(False)
       hid = h.get_id()
       if hid not in seen_h:
         seen_h.add(hid)
@@ -210,6 +214,10 @@ class Engine:
     if key in self._seen:
       return
     self._seen.add(key)
+    # goal (or each of its conjuncts) literally among the hypotheses: keep only those (instant, stable query)
+    conj = list(goal.children()) if z3.is_and(goal) else [goal]
+    if all(c.get_id() in seen_h for c in conj):
+      hyps = [h for h in hyps if h.get_id() in {c.get_id() for c in conj}]
     self.obligations.append(
         Obligation(label, kind, self.cur.target if self.cur else "?", hyps, goal, tuple(st.decisions[:st.dptr]), line,
                    props, clause, dict(st.inputs), note))
@@ -725,17 +733,14 @@ class Engine:
     if isinstance(y, int) and y > 0:
       xx = to_z3(x)
       return xx / y, xx % y
-    # general divisor: q, r with x == q*y + r and r in [0,y) resp. (y,0]
+    # general divisor: Python floor semantics, encoded without fresh symbols and without consulting the solver
+    # (deterministic): for y > 0 SMT-LIB div/mod ARE floor division; for y < 0 floor(x/y) = (-x) div (-y) and
+    # x % y = -((-x) mod (-y)).
     yy = to_z3(y)
     xx = to_z3(x)
-    pos = st.nofresh or self.known(st, yy > 0)
-    if pos:
-      # (inside quantifier bodies no fresh symbols are introduced: z3's div/mod, exact for positive divisors)
+    if self.th.syntactically_positive(yy):
       return xx / yy, xx % yy
-    q = z3.Int(V.fresh_name("q"))
-    r = z3.Int(V.fresh_name("r"))
-    st.assume(xx == q * yy + r, z3.Implies(yy > 0, z3.And(r >= 0, r < yy)), z3.Implies(yy < 0, z3.And(r <= 0, r > yy)))
-    return q, r
+    return (z3.If(yy > 0, xx / yy, (-xx) / (-yy)), z3.If(yy > 0, xx % yy, -((-xx) % (-yy))))
 
   def known(self, st, fact):
     """True if the path condition implies `fact` (cheap check)."""
@@ -808,6 +813,8 @@ class Engine:
       raise Unsupported(f"enum member {base.name}.{attr}")
     if base is None:
       self.implicit(st, "AttributeError", False, node, f"None.{attr}")
+    if isinstance(base, int) and attr in ("name", "value"):
+      return Opaque(f"enum member .{attr}")     # enum.Enum members are modelled by their values
     return FuncV("builtin_method", attr, selfv=base)
 
   def class_attr(self, st, cls, attr):
@@ -1079,7 +1086,7 @@ class Engine:
     if hooks:
       pnames = [a.arg for a in f.node.args.args if a.arg != "self"]
       argv = tuple(env.get(n) for n in pnames)
-      self.run_ghost(st, hooks, {"args": argv, "result": result}, f"{self.cur.qual}/at-call:{c.qual}@L{line}", line)
+      self.run_ghost(st, hooks, {"args": argv, "ret": result}, f"{self.cur.qual}/at-call:{c.qual}@L{line}", line)
     if self.cur is not None and len(st.frames) == 1 and c.qual.split(".")[-1] in getattr(self.cur, "stop_after", ()):
       self.abstracted.add(f"body of {self.cur.qual} after the call of {c.qual} at L{line} (floating-point tail): assumed "
                           "to return normally")
@@ -1738,14 +1745,45 @@ class Engine:
       fr = Frame(dict(overlay), st.frame, st.frame.module, fname=st.frame.fname)
       st.frames.append(fr)
       st.spec_depth += 1
+      by = None
       try:
         if cl.let:
           overlay[cl.let] = self.ev(cl.node, st)
           continue
-        g = self.truthy(st, self.ev(cl.node, st))
+        bynode, guard = None, True
+        if isinstance(cl.node, ast.Call) and isinstance(cl.node.func, ast.Name) and cl.node.func.id == "by":
+          bynode = cl.node
+        elif (isinstance(cl.node, ast.Call) and isinstance(cl.node.func, ast.Name) and cl.node.func.id == "implies"
+              and isinstance(cl.node.args[1], ast.Call) and isinstance(cl.node.args[1].func, ast.Name)
+              and cl.node.args[1].func.id == "by"):
+          guard = self.truthy(st, self.ev(cl.node.args[0], st))
+          bynode = cl.node.args[1]
+        if bynode is not None and isinstance(guard, bool) and not guard:
+          continue
+        if bynode is not None:
+          # by(goal, p1, ..., pk): each premise is proved from the full context, the goal from the premises ALONE
+          # (small, stable non-linear queries); then the goal is assumed.  implies(G, by(...)): the same under G.
+          n0 = len(st.pc)
+          vals = [self.truthy(st, self.ev(a, st)) for a in bynode.args]
+          theory = st.pc[n0:]      # theory axiom instances created while evaluating these terms stay available
+          if not isinstance(guard, bool):
+            by = (self.implies(guard, vals[0]), [self.implies(guard, v) for v in vals[1:]], list(theory) + [guard])
+            by = (by[0], by[1], by[2], vals[0], vals[1:])
+          else:
+            by = (vals[0], vals[1:], list(theory), vals[0], vals[1:])
+        else:
+          g = self.truthy(st, self.ev(cl.node, st))
       finally:
         st.spec_depth -= 1
         st.frames.pop()
+      if by is not None:
+        g, prem, theory, g_raw, prem_raw = by
+        for i, pm in enumerate(prem):
+          self.emit(st, "hint", f"{label}/hint-premise{i}:{cl.text}", pm, clause=cl.text, line=line, props=cl.props)
+        self.emit(st, "hint", f"{label}/hint:{cl.text}", g_raw, clause=cl.text, line=line, props=cl.props,
+                  only_hyps=list(prem_raw) + theory)
+        st.assume(g)
+        continue
       self.emit(st, "hint", f"{label}/hint:{cl.text}", g, clause=cl.text, line=line, props=cl.props)
       st.assume(g)
 
@@ -1867,6 +1905,8 @@ class Engine:
   def st_For(self, s, st):
     ordinal = self.loop_ordinal(s)
     lc = self.cur.loops.get(ordinal) if (self.cur and ordinal is not None and len(st.frames) == 1) else None
+    if lc and lc.get("abstract"):
+      return self.abstract_loop(st, s, lc, ordinal)
     it = self.ev(s.iter, st)
     seq = self.th.as_iterable(self, st, it, s)
     # seq: ("concrete", [values]) | ("range", lo, hi, step) | ("slist", HList) | ("enumerate", inner, start) | ...
@@ -1905,9 +1945,20 @@ class Engine:
     self.havoc_loop(st, s.body, lc)
     inside = self.choose(st, None)
     if inside:
-      st.assume(k >= 0, k < to_z3(n_items))
-      self.assume_invs(st, lc, self.th.iter_overlay(self, st, seq, k, s.target))
-      self.assign(st, s.target, self.th.iter_item(self, st, seq, k, s))
+      if lc.get("cases") and seq[0] == "concrete":
+        # cut over a concrete sequence by case split: one path per element (elements need not be if-then-else-able)
+        pick = None
+        for idx in range(len(seq[1])):
+          if idx == len(seq[1]) - 1 or self.choose(st, None):
+            pick = idx
+            break
+        k = pick
+        self.assume_invs(st, lc, self.th.iter_overlay(self, st, seq, k, s.target))
+        self.assign(st, s.target, seq[1][pick])
+      else:
+        st.assume(k >= 0, k < to_z3(n_items))
+        self.assume_invs(st, lc, self.th.iter_overlay(self, st, seq, k, s.target))
+        self.assign(st, s.target, self.th.iter_item(self, st, seq, k, s))
       st.frame.env[f"_i{ordinal}"] = k      # ghost: iteration index of loop <ordinal>, visible to on_call hooks
       if lc.get("head"):
         self.run_ghost(st, lc["head"], {"_i": k}, label + "/head", line)
@@ -1940,11 +1991,37 @@ class Engine:
             else:
               for nm in tnames:
                 st.frame.env.pop(nm, None)
-          except (Unsupported, Undecidable):
+          except (Unsupported, Undecidable, TypeError):
             for nm in tnames:
               st.frame.env.pop(nm, None)
           break
       self.exec_block(s.orelse, st)
+
+  def abstract_loop(self, st, s, lc, ordinal):
+    """Loop declared `abstract`: the body is not analysed; every name it assigns and every heap object it may mutate is
+    havocked (to the declared type, else to an abstracted value).  Sound only for side-effect-free search regions whose
+    results are used through contracts that hold for arbitrary values; the region must not call functions with a
+    `modifies` contract (checked syntactically) and is assumed not to raise (listed in the evidence)."""
+    for n in ast.walk(ast.Module(body=s.body, type_ignores=[])):
+      if isinstance(n, ast.Call):
+        tgt = self.static_callee(n, st)
+        if tgt is not None:
+          c = C.REGISTRY.get(tgt[0])
+          if c is not None and c.modifies:
+            raise Unsupported(f"abstract loop {ordinal} calls {tgt[0]} which has a modifies clause")
+      if isinstance(n, (ast.Return, ast.Raise)):
+        raise Unsupported(f"abstract loop {ordinal} contains return/raise")
+    self.abstracted.add(f"loop {ordinal} of {self.cur.qual} at L{s.lineno} abstracted: assigned names havocked, assumed "
+                        "effect-free outside them and not to raise")
+    names = self.assigned_names([s]) | self.mutated_roots(s.body, st)
+    for n in sorted(names):
+      if n in lc.get("keep", ()):
+        continue
+      decl = lc["types"].get(n)
+      if decl is not None and decl != "opaque":
+        st.frame.env[n] = self.fresh_heap(st, decl, n)
+      else:
+        st.frame.env[n] = Opaque(f"{n} (result of abstracted loop {ordinal})")
 
   # ---- comprehensions
 
